@@ -6,6 +6,7 @@ package main
 import (
 	"bytes"
 	"testing/fstest"
+	"time"
 
 	"github.com/foxboron/go-uefi/efi/attributes"
 	"github.com/foxboron/go-uefi/efi/signature"
@@ -97,6 +98,8 @@ func (r rawDB) Bytes() []byte           { return r }
 
 func runVarstore(sc M) {
 	id := sc["sc"]
+	time.Local = zoneOf(str(sc, "tz")) // the store behaves the same in every process time zone
+	defer func() { time.Local = time.UTC }()
 	storeValue("empty")
 	fs := testfs.NewTestFS()
 	pre := M{}
